@@ -176,6 +176,8 @@ structure DSt (iv : Nat) where
   acked : List (String × String × ORet) := []
   /-- a lock log was seen: this case is a concurrent run (actors are unique per command) -/
   conc : Bool := false
+  /-- `real` lines (a real krill aggregate, no model): last observed version -/
+  realV : Nat := 0
   synced : Bool := true
 
 structure St where
@@ -355,6 +357,8 @@ def modelStep {iv : Nat} (d : DSt iv) (op : List String) : Option (MOut iv) :=
            branch := if e.kv.exists then (if e.kv.wals.isEmpty then "snapshot-only" else "with-wal") else "absent" }
   -- concurrent mode: the per-entity lock log is judged by the oracle only
   | "conclog" :: _ => some { d := d, ret := "ok", view := none, branch := "log" }
+  -- a real krill aggregate (RepositoryAccess): no model, judged by the oracle only
+  | "real" :: kind :: _ => some { d := d, ret := "", view := none, branch := kind }
   | _ => none
 
 /-! ### oracle: the property predicates on the implementation's own observations -/
@@ -461,6 +465,16 @@ def oracle {iv} (d : DSt iv) (op ows : List String) : List String :=
     let rets := ["live0", "live1", "fresh"].map fun n => (kv? ows n).bind parseRet
     if rets.any (·.isNone) then ["unparsable-observation"] else
     named "wal_replay_eq_live" (allAgree (rets.filterMap id))
+  | "real" :: kind :: _ =>
+    let g := fun k => (kv? ows k).getD "?"
+    let vf := (g "vf").toNat?.getD 0
+    let keys := ((g "keys").splitOn ",")
+    let hasSnap := keys.contains "s"
+    let changes := kind == "init" || kind == "add" || kind == "remove"
+    named "replay_eq_live" (g "pl" == g "pf" && g "pf" == g "ps" && g "af" == g "as" && g "vf" == g "vs") ++
+    named "one_key_per_command" (keys == expectedKeys vf hasSnap) ++
+    -- accepted and rejected commands alike take exactly one version; nothing else does
+    named "versions_consecutive" (if changes && (kind != "init" || obsRet ows == "ok") then vf == d.realV + 1 else vf == d.realV)
   | ["conclog", _] =>
     match parseLockLog ((kv? ows "ev").getD "-") with
     | some evs => named "well_bracketed" (Sys.wellBracketed evs)
@@ -478,7 +492,10 @@ def learn {iv} (d : DSt iv) (op ows : List String) : DSt iv :=
     | ["wcheck", h] => some (h, true)
     | _ => none
   match h? with
-  | none => if op.head? == some "conclog" then { d with conc := true } else d
+  | none =>
+    if op.head? == some "conclog" then { d with conc := true }
+    else if op.head? == some "real" then { d with realV := ((kv? ows "vf").getD "0").toNat?.getD 0 }
+    else d
   | some (h, wal) =>
     -- remember what was acknowledged (judged by `audit_exact` in concurrent runs)
     let d := match op, parseRet (obsRet ows) with
@@ -530,7 +547,7 @@ def stepD {iv} (prop : String) (d : DSt iv) (line : String) : DSt iv × String :
   | some m =>
     -- carry the oracle bookkeeping over to the model's new state
     let dM := { m.d with iviews := dO.iviews, istate := dO.istate, dropped := dO.dropped,
-                          acked := dO.acked, conc := dO.conc }
+                          acked := dO.acked, conc := dO.conc, realV := dO.realV }
     if !d.synced then
       if orc.isEmpty then ({ dM with synced := false }, "skip unsynced")
       else ({ dM with synced := false }, fmtFail "oracle" orcTxt)
@@ -546,7 +563,7 @@ def stepD {iv} (prop : String) (d : DSt iv) (line : String) : DSt iv × String :
       let viewOk := match m.view with
         | none => true
         | some v => (kv? ows "keys").isNone || parseView ows (op.head?.any (·.startsWith "w")) == some v
-      let retOk := obsRetTxt == m.ret || op.head? == some "conclog"
+      let retOk := obsRetTxt == m.ret || op.head? == some "conclog" || op.head? == some "real"
       if retOk && viewOk then
         if orc.isEmpty then (dM, s!"ok {op.headD ""}:{m.branch}")
         else (dM, fmtFail "oracle" orcTxt)
